@@ -22,7 +22,7 @@ ASSUMPTIONS = ["no malformed rules in these scenarios (an Err is not a diagnosti
 
 
 def plan(tier, seed):
-    n = 40 if tier == "quick" else 900
+    n = 250 if tier == "quick" else 3000
     jobs = [{"i": i, "seed": seed, "n": 12, "flavour": "rel"} for i in range(n)]
     if tier == "thorough":
         jobs += [{"i": i, "seed": seed, "n": 4, "flavour": "tsan"} for i in range(60)]
